@@ -19,7 +19,7 @@ var c02Bodies = []string{
 	`if . == null then empty else . end`, `length?`, `tojson`, `error`, `.[0]?`, `del(.[0]?)`, `. as $x | [$x, $x]`,
 }
 
-var c02Ops = []string{"+", "-", "*", "/", "%", "//"}
+var c02Ops = []string{"+", "-", "//", "*", "/", "%"}
 
 // the defining reductions, written with the plain builtins
 func c02ModifyRef(p, f string) string {
@@ -34,9 +34,163 @@ func c02OpRef(p, op, x string) string {
 	return `(` + x + `) as $x | ` + c02ModifyRef(p, `. `+op+` $x`)
 }
 
-// iterated single deletions, last path first, against the plain delpaths on one path
-func c02DelRef(p string) string {
-	return `reduce ([path(` + p + `)] | unique | reverse | .[]) as $q (.; delpaths([$q]))`
+// ---- reference delpaths: every path is interpreted against the original value ----
+
+// refIdx: position of index i in a window of n elements, or -1 (jq: negative counts
+// from the end, out of range deletes nothing).
+func refIdx(i, n int) int {
+	if i < 0 {
+		i += n
+	}
+	if i < 0 || i >= n {
+		return -1
+	}
+	return i
+}
+
+func refClamp(i, lo, hi int) int {
+	if i < 0 {
+		i += hi
+	}
+	if i < lo {
+		return lo
+	}
+	if i > hi {
+		return hi
+	}
+	return i
+}
+
+type refDelState struct{ err bool }
+
+// refDelArr records, for the window [lo,hi) of arr, which positions are deleted
+// (marks) and which deeper paths apply to which position (child), in path order.
+func (st *refDelState) refDelArr(lo, hi int, path []any, marks []bool, child map[int][][]any) {
+	if len(path) == 0 {
+		for p := lo; p < hi; p++ {
+			marks[p] = true
+		}
+		return
+	}
+	n := hi - lo
+	switch e := path[0].(type) {
+	case int:
+		if k := refIdx(e, n); k >= 0 && !marks[lo+k] {
+			if len(path) == 1 {
+				marks[lo+k] = true
+			} else {
+				child[lo+k] = append(child[lo+k], path[1:])
+			}
+		}
+	case map[string]any:
+		s, ok1 := e["start"]
+		t, ok2 := e["end"]
+		if !ok1 || !ok2 {
+			st.err = true
+			return
+		}
+		start, end := 0, n
+		if s != nil {
+			i, ok := s.(int)
+			if !ok {
+				st.err = true
+				return
+			}
+			start = refClamp(i, 0, n)
+		}
+		if t != nil {
+			i, ok := t.(int)
+			if !ok {
+				st.err = true
+				return
+			}
+			end = refClamp(i, start, n)
+		}
+		if start < end {
+			st.refDelArr(lo+start, lo+end, path[1:], marks, child)
+		}
+	default:
+		st.err = true
+	}
+}
+
+// refDel returns v without the given paths; deleted reports that v itself is deleted.
+func (st *refDelState) refDel(v any, paths [][]any) (res any, deleted bool) {
+	for _, p := range paths {
+		if len(p) == 0 {
+			return nil, true
+		}
+	}
+	if len(paths) == 0 {
+		return v, false
+	}
+	switch v := v.(type) {
+	case nil:
+		for _, p := range paths {
+			switch e := p[0].(type) {
+			case string, int:
+			case map[string]any:
+				_, ok1 := e["start"]
+				_, ok2 := e["end"]
+				if !ok1 || !ok2 {
+					st.err = true
+				}
+			default:
+				st.err = true
+			}
+		}
+		return nil, false
+	case map[string]any:
+		gone := map[string]bool{}
+		child := map[string][][]any{}
+		for _, p := range paths {
+			k, ok := p[0].(string)
+			if !ok {
+				st.err = true
+				return nil, false
+			}
+			if _, have := v[k]; !have || gone[k] {
+				continue
+			}
+			if len(p) == 1 {
+				gone[k] = true
+			} else {
+				child[k] = append(child[k], p[1:])
+			}
+		}
+		w := map[string]any{}
+		for k, x := range v {
+			if gone[k] {
+				continue
+			}
+			if y, del := st.refDel(x, child[k]); !del {
+				w[k] = y
+			}
+		}
+		return w, false
+	case []any:
+		marks := make([]bool, len(v))
+		child := map[int][][]any{}
+		for _, p := range paths {
+			st.refDelArr(0, len(v), p, marks, child)
+			if st.err {
+				return nil, false
+			}
+		}
+		w := []any{}
+		for i, x := range v {
+			if marks[i] {
+				continue
+			}
+			if y, del := st.refDel(x, child[i]); !del {
+				w = append(w, y)
+			}
+		}
+		return w, false
+	default:
+		st.err = true
+		return nil, false
+	}
 }
 
 func c02Input() any {
@@ -106,7 +260,9 @@ func hAcyclic(v any, depth int) bool {
 }
 
 func c02Compare(kind, a, b string, input any, i, j, k int) {
-	vlabel("prog", a)
+	if kind != "modify" {
+		vlabel("prog", a)
+	}
 	snap := hDeepCopy(input)
 	got := c02Run(a, input, i, j, k)
 	for _, g := range got {
@@ -140,6 +296,15 @@ func H_C02_modify() {
 	f := c02Bodies[nondetChoice(vparam("bodies", len(c02Bodies)))]
 	input := c02Input()
 	i, j, k := c02Index(), c02Index(), c02Index()
+	vlabel("prog", `(`+p+`) |= (`+f+`)`)
+	// recorded finding (known_findings.txt): a body that builds a container around its
+	// input keeps a reference into an array/object the update later mutates in place
+	switch f {
+	case `[.]`, `[., .]`, `{a: .}`, `{a: .a?, c: .}`, `. as $x | [$x, $x]`:
+		vlabel("body", "embeds-its-input")
+	default:
+		vlabel("body", "plain")
+	}
 	c02Compare("modify", `(`+p+`) |= (`+f+`)`, c02ModifyRef(p, f), input, i, j, k)
 }
 
@@ -156,18 +321,49 @@ func H_C02_assign() {
 func H_C02_opassign() {
 	lo, hi := vparam("from", 0), vparam("to", len(c02Paths))
 	p := c02Paths[lo+nondetChoice(hi-lo)]
-	op := c02Ops[nondetChoice(len(c02Ops))]
-	xs := []string{`1`, `(1, 2)`, `$i`, `.[$k]?`, `empty`, `null`, `[3]`}
-	x := xs[nondetChoice(len(xs))]
+	op := c02Ops[nondetChoice(vparam("ops", len(c02Ops)))]
+	xs := []string{`1`, `(1, 2)`, `$i`, `empty`, `.[$k]?`, `null`, `[3]`}
+	x := xs[nondetChoice(vparam("xs", len(xs)))]
 	input := c02Input()
 	i, j, k := c02Index(), c02Index(), c02Index()
 	c02Compare("opassign", `(`+p+`) `+op+`= (`+x+`)`, c02OpRef(p, op, x), input, i, j, k)
 }
 
+// del(P) against the Go reference applied to the paths the VM yields for path(P).
 func H_C02_del() {
 	lo, hi := vparam("from", 0), vparam("to", len(c02Paths))
 	p := c02Paths[lo+nondetChoice(hi-lo)]
 	input := c02Input()
 	i, j, k := c02Index(), c02Index(), c02Index()
-	c02Compare("del", `del(`+p+`)`, c02DelRef(p), input, i, j, k)
+	src := `del(` + p + `)`
+	vlabel("prog", src)
+	snap := hDeepCopy(input)
+	got := c02Run(src, input, i, j, k)
+	vassert(hIdentical(input, snap), "del: input unchanged")
+	ps := c02Run(`[path(`+p+`)]`, hDeepCopy(snap), i, j, k)
+	vassert(len(got) == 1 && len(ps) == 1, "del: one output")
+	if len(got) != 1 || len(ps) != 1 {
+		return
+	}
+	_, e1 := got[0].(error)
+	plist, okp := ps[0].([]any)
+	if !okp {
+		vassert(e1, "del: fails when path(P) fails")
+		vreach("del-patherr")
+		return
+	}
+	var paths [][]any
+	for _, q := range plist {
+		paths = append(paths, q.([]any))
+	}
+	st := &refDelState{}
+	want, deleted := st.refDel(hDeepCopy(snap), paths)
+	if deleted {
+		want = nil
+	}
+	vassert(e1 == st.err, "del: fails exactly when the reference fails")
+	if !e1 && !st.err {
+		vassert(hIdentical(got[0], want), "del: equals deleting every path against the original value")
+	}
+	vreach("del")
 }
